@@ -122,7 +122,7 @@ func run(c *ev.Ctx) {
 	units := buildUnits(quick, cp)
 	d := ev.Pick(c, 2, 3)
 	c.Rule(fmt.Sprintf("every element of a closed list of %d units is fed to every entry point of its family (%d entry points) in a strict and in a permissive worker process. "+
-		"Units: G-bytes = all byte strings of length <= 3 for the asn1.Unmarshal/cryptobyte primitives and <= 2 for every other entry point (TLS messages additionally: correct 4-byte header + every body <= 2 bytes); "+
+		"Units: G-bytes = all byte strings of length <= 3 for the cryptobyte readers"+map[bool]string{true: " (asn1.Unmarshal: <= 2 in this tier, <= 3 in the thorough tier)", false: " and the asn1.Unmarshal / ct/asn1.Unmarshal target types"}[quick]+" and <= 2 for every other entry point (TLS messages additionally: correct 4-byte header + every body <= 2 bytes); "+
 		"G-tlv = for each seed (fixtures found under the repository + certificates/CSRs/CRLs/OCSP/keys created by the harness) the seed itself, every (TLV node x %d operators) single mutation with ancestor lengths fixed up, every single-byte substitution from {00,01,7f,80,ff,b^01,b^80} at every offset, every truncation (seeds > 4 KiB: byte-level menus on head/tail windows only)%s; "+
 		"G-field = every assignment of the certificate model (%d fields, %d non-default alternatives) with <= %d non-default fields = %d certificates, each also as bare TBSCertificate; "+
 		"closed models of SST, CRLSet, OneCRL (entry lists over small alphabets), JSON-tree mutations of a OneCRL fixture, and the full product of a constructed-RSA-key alphabet. "+
